@@ -408,6 +408,22 @@ CHECKS = {
    technique="Coq proof (induction over the chunk list) + differential correspondence over a scripted net.Conn",
    ref="5/C15"),}
 
+# additions made after the second round of seeded changes (appended to the descriptions above)
+EXTRA_TEXT = {
+ "C01": "The stage-level runs also judge liveness: valid shares of a threshold of distinct members among the junk must yield a report.",
+ "C02": "Groups of 65..72 and 257..266 members are included, with a high-index member's share repeated under other encodings (trailing byte, coordinate + p) at random positions.",
+ "C03": "Groups of 65..72 members with t-1 signers and a high-index share repeated under other encodings are included.",
+ "C06": "The same key is also handed to Verify as differently built objects (parsed, negation of a parsed point, negated in place, a sum, a negated Jacobian multiple, the negated generator) with nothing normalising it before the call, and the identity key (zero multiple, Null(), parsed) with the identity and another signature is compared with the EVM on the four-zero-word encoding.",
+ "C07": "Two further families: the document transfer breaks after 0, 1, half or all-but-one bytes (a member must then sign the same string as the others or nothing), and extracted results are held - sequentially and in 8 goroutines - while further documents are evaluated (they must stay what they were).",
+ "C08": "Self-consistent deals whose polynomial really has 1 or n+1..n+3 coefficients (session id and share derived from those commitments) must not be approved.",
+ "C09": "Every reconstruction compares the share objects before and after the call and uses them a second time (inputs are values).",
+ "C11": "Decoding into a used receiver is run for receivers that came to their value by decoding, scalar multiplication (Jacobian), addition, negation, and for Null() on a used point, with the identity among the decoded elements.",
+ "C15": "The harness looks at the frames only after the whole stream has been read (a frame handed out must stay what it was while later frames are read).",
+ "C17": "(c) Models/ConnTable.v - callHandler's table of dialled connections and receiveHandler's table of accepted ones, connections ending and their removal announcements processed at any later time: in every reachable state a table entry names a connection to that very peer in that table's direction, alive or with its removal announced (C17_tables_invariant); a request goes out on a connection dialled to THAT peer, a reply on the connection accepted from the requester (C17_request_uses_own_connection, C17_reply_uses_requesters_connection); once the announcements are processed the tables hold live connections only and a peer that went away leaves no entry, so the next request dials afresh (C17_settled_tables_live, C17_peer_gone_tables_clean); the variant that announces to the wrong channel is refuted (C17_wrong_channel_refuted). Tie: histories of requests in both directions, peers going away and coming back at new addresses, and stray replies against one real server and three real peers, after each event the size of the accepted table, the number of dialled connections as counted by the peers, and the class of what happened (handed to a live connection / dialled / dial failed / accepted / no client) compared with the extracted model.",
+}
+for _k, _v in EXTRA_TEXT.items():
+    CHECKS[_k]["text"] += " " + _v
+
 NOT_YET = {
 }
 
